@@ -50,6 +50,8 @@ type CaseA struct {
 	Conc   []Bcast    `json:"conc"` // concurrently with A's first message
 	Post   []Bcast    `json:"post"` // after the reply
 	Follow []Follow   `json:"follow"`
+	// fault dimension (fault_test.go): the transport of socket A fails at the first message
+	Fault *Fault `json:"fault,omitempty"`
 }
 
 var namePool = []string{"alice", "bob", "Neo", "op-3", "x", "kessel", "Sky"}
@@ -401,6 +403,20 @@ func genA(t *rapid.T) CaseA {
 		at := rapid.IntRange(0, len(c.Follow)).Draw(t, "scale-at")
 		c.Follow = append(c.Follow[:at], append([]Follow{f}, c.Follow[at:]...)...)
 	}
+	if faultShare(t, "fault?") {
+		// fault: the server's write of the answer, or its read of a frame, fails (fault_test.go);
+		// at least one follow-up that would be an action is there to be (not) dispatched
+		c.Fault = genFault(t, false)
+		act := false
+		for _, f := range c.Follow {
+			if f.K == "chat" || f.K == "ladd" || f.K == "task" {
+				act = true
+			}
+		}
+		if !act {
+			c.Follow = append(c.Follow, Follow{K: rapid.SampledFrom([]string{"chat", "ladd", "task"}).Draw(t, "fault-fk"), N: rapid.IntRange(0, 3).Draw(t, "fault-fn")})
+		}
+	}
 	return c
 }
 
@@ -673,6 +689,10 @@ func runA(raw json.RawMessage) *core.Violation {
 	}
 	s0 := fx.Snapshot()
 	base := len(w.retained)
+
+	if c.Fault != nil {
+		return w.runFault(rd, s0, base, handlersAlive, &dirty)
+	}
 
 	// ---- A connects and stays silent
 	a, err := fx.Dial("/havoc/")
@@ -1072,6 +1092,10 @@ func classifyA(c CaseA) core.Class {
 	if c.Agents > 0 {
 		cl.Labels = append(cl.Labels, "sessions-exist")
 	}
+	if c.Fault != nil {
+		cl.Labels = append(cl.Labels, c.Fault.label("first-message"), "fault+reading:"+rd.verdict.String())
+		scale += "|fault=" + c.Fault.Op + "/" + c.Fault.How + "/" + c.Fault.At
+	}
 	inflight := len(c.Pre) > 0 || len(c.Conc) > 0
 	cl.NonTrivial = rd.user != "" || inflight
 	cl.Fingerprint = fmt.Sprintf("%s|%s|op=%v|online=%v|B=%v|pre=%v|conc=%v|post=%v|fol=%v%s", key, rd.verdict, rd.user != "", online, c.B >= 0, len(c.Pre) > 0, len(c.Conc) > 0, len(c.Post) > 0, len(c.Follow) > 0, scale)
@@ -1081,7 +1105,7 @@ func classifyA(c CaseA) core.Class {
 func TestC06a(t *testing.T) {
 	core.Run(t, core.Spec[CaseA]{
 		Property: "C06", Sub: "a",
-		Rule: "real Teamserver.Start() served on a harness listener; profile with 1-3 generated operators; socket A's first message from a grammar (the real client's login; per-field mutations absent/null/number/bool/array/object/extra on Head,Event,User,Time,OneTime,Body,SubEvent,Info,Info.User,Info.Password; all event/sub-event codes; unknown users; right user with wrong digest (random, truncated, another operator's, empty, plaintext, appended, upper-case); non-JSON, binary, empty, 1 MiB; duplicate/case-variant keys) x follow-ups (listener add/remove, chat, agent task, payload build, mark, second login) x broadcasts (agent registration, console output, mark, listener start, chat by an authenticated operator B) while A is silent / racing the handshake / after the reply. Oracle: A's complete frame list (exact: taken after the server side is closed) is [] before it speaks, [one InitConnection/Error] for every message that does not name an operator with its digest, Success+replay for the real client's login; refused => listeners, endpoints, agents, job queues, retained events, DB rows, service registries equal the state before A plus the harness's own operations, and B received only those; process survival is observed by running the case in a worker subprocess. Non-trivial: the message names an existing operator, or a broadcast happens while A is silent or during its handshake. SCALE: in about 3 % of the cases the first message, whatever its class, is brought by trailing blanks to a total size from the threshold-adjacent pool {63,64,65, 127,128,129, ... 8191,8192,8193, 16383-16385, 65535-65537} bytes (label scale:first-message-bytes:<bucket>; the 1 MiB class stays), and in about 2.5 % one follow-up - in half of them a further login attempt with the right credentials on the same connection - is sent 63 ... 1025 times (threshold-adjacent pool cut at 1025; label scale:follow-ups-login / -other:<bucket>), before, between or after the other follow-ups; same oracle (exactly one error frame, nothing changed, B saw nothing)",
+		Rule: "real Teamserver.Start() served on a harness listener; profile with 1-3 generated operators; socket A's first message from a grammar (the real client's login; per-field mutations absent/null/number/bool/array/object/extra on Head,Event,User,Time,OneTime,Body,SubEvent,Info,Info.User,Info.Password; all event/sub-event codes; unknown users; right user with wrong digest (random, truncated, another operator's, empty, plaintext, appended, upper-case); non-JSON, binary, empty, 1 MiB; duplicate/case-variant keys) x follow-ups (listener add/remove, chat, agent task, payload build, mark, second login) x broadcasts (agent registration, console output, mark, listener start, chat by an authenticated operator B) while A is silent / racing the handshake / after the reply. Oracle: A's complete frame list (exact: taken after the server side is closed) is [] before it speaks, [one InitConnection/Error] for every message that does not name an operator with its digest, Success+replay for the real client's login; refused => listeners, endpoints, agents, job queues, retained events, DB rows, service registries equal the state before A plus the harness's own operations, and B received only those; process survival is observed by running the case in a worker subprocess. Non-trivial: the message names an existing operator, or a broadcast happens while A is silent or during its handshake. SCALE: in about 3 % of the cases the first message, whatever its class, is brought by trailing blanks to a total size from the threshold-adjacent pool {63,64,65, 127,128,129, ... 8191,8192,8193, 16383-16385, 65535-65537} bytes (label scale:first-message-bytes:<bucket>; the 1 MiB class stays), and in about 2.5 % one follow-up - in half of them a further login attempt with the right credentials on the same connection - is sent 63 ... 1025 times (threshold-adjacent pool cut at 1025; label scale:follow-ups-login / -other:<bucket>), before, between or after the other follow-ups; same oracle (exactly one error frame, nothing changed, B saw nothing). FAULT (wave 15; about one case in four; labels fault:socket:<operation>:<how>@first-message[+pipelined-follow-ups|+follow-up-frame], fault+reading:<reading>): the transport of socket A fails at the first message and the case goes on (follow-ups, broadcasts, probe). write-answer = the teamserver's WRITE of the handshake answer (Success or the refusal) fails: the fixture's server-side connection wrapper lets K more bytes through (K = 0: fails-at-once; K = 1 ... 5000: fails-after-k-bytes, inside or just after the answer frame) and fails every later write, the follow-ups either pipelined behind the first message in the same segment or sent afterwards; or a real peer writes the first message and all follow-ups as hand-built masked frames in ONE segment and resets its socket at once (SO_LINGER 0: peer-reset; in the variant 'segment-delivered-after-the-reset' the fixture hands the segment to the teamserver only after the reset has happened, so that every frame is readable when the answer can no longer be written; the other variant is the real race), or shuts down its sending direction instead (peer-half-close: the answer can be written, the follow-ups are readable and followed by EOF). read-frame = the teamserver's READ fails in the middle of a frame, K bytes into the first message or into the first follow-up (+follow-up-frame): the wrapper's Read returns ECONNRESET (conn-reset) or EOF (conn-eof) from there on, or the peer announced the frame's full length, sent only that part of it and then reset (peer-rst-mid-frame) or half-closed (peer-fin-mid-frame). Combined with every first-message class and every follow-up class (one of chat / listener add / task is always among them). Oracle unchanged, taken on the server side - the wrapper keeps a transcript of every byte the teamserver wrote to A, so the judgement is exact even when the peer never read: for a must-reject reading the client record of A never says authenticated, everything written to A is (a prefix of) ONE InitConnection/Error frame (exactly one complete error frame when the fault touches neither the first message nor the answer: peer-half-close, read faults in a follow-up frame), listeners / endpoints / agents / job queues / retained events / DB rows / authenticated client records equal the state before A plus the harness's own operations, and B received exactly the harness's events; for the other readings (the login may be accepted, A is then an operator; only chat / login follow-ups are sent) survival of the process and B still being served are demanded; the effect of every injected fault (did a write / read of the teamserver fail) is counted under observed fault-effect:*",
 		Gen:   genA, Check: checkA, Classify: classifyA,
 		Assumptions: []string{
 			"upper-case hex of the right digest, duplicate or case-variant JSON keys, and operator+digest combined with other event codes or ill-typed other fields may be refused or accepted (statement is silent); both outcomes are then checked for cleanliness",
